@@ -104,6 +104,9 @@ Proof.
     (repeat split; auto); rewrite ?app_nil_r; auto; destruct (e_mode E); auto.
 Qed.
 
+Lemma good_set_unmod' E s : good E s -> good E (set_unmod s).
+Proof. intros (Hl & He & Hc & Hx & Hn). unfold good, out_content, nobuf in *. cbn. auto. Qed.
+
 (* a detached stream that has not failed *)
 Lemma deliver_good E s n o data s' o' : good E s -> os_cgfail o = false -> deliver E s n o data = (s', o') ->
   good E s' /\ os_cgfail o' = false /\ st_outs s' = st_outs s /\ st_ins s' = st_ins s /\ st_obs s' = st_obs s /\
@@ -115,7 +118,10 @@ Proof.
   { intros fs. destruct Hg as (Hl & He & Hcc & Hx & Hn). unfold good, out_content, nobuf in *. cbn. auto. }
   destruct (os_kind o) eqn:Ek.
   - destruct (os_off o); intros H; injection H as <- <-; cbn; auto 10.
-  - set (s1 := match c_sink (e_spec E n) with Some t => set_fs s (fs_append (st_fs s) t d) | None => s end).
+  - destruct (c_drain (e_spec E n)).
+    2:{ intros H; injection H as <- <-. cbn [os_cgfail os_kind].
+        destruct (is_synced E s n); cbn [st_outs st_ins st_obs set_unmod]; auto 10 using good_set_unmod'. }
+    set (s1 := match c_sink (e_spec E n) with Some t => set_fs s (fs_append (st_fs s) t d) | None => s end).
     assert (Hg1 : good E s1) by (subst s1; destruct (c_sink (e_spec E n)); auto).
     assert (Ho1 : st_outs s1 = st_outs s /\ st_ins s1 = st_ins s /\ st_obs s1 = st_obs s)
       by (subst s1; destruct (c_sink (e_spec E n)); cbn; auto).
@@ -196,7 +202,8 @@ Lemma flush_named_good E s n o : good E s -> alookup n (st_outs s) = Some o -> g
 Proof.
   intros Hg Hl. unfold flush_named. destruct (flush_ostream E s n o) as [s1 o1] eqn:Ef.
   destruct (flush_ostream_good _ _ _ _ _ _ Hg (good_lookup _ _ _ _ Hg Hl) Ef) as (Hg1 & Hc1 & _).
-  apply good_aset; auto.
+  cbv zeta. assert (Hg2 : good E (set_outs s1 (aset n o1 (st_outs s1)))) by (apply good_aset; auto).
+  destruct (os_err o1); auto. apply print_errorf_good; auto.
 Qed.
 
 Lemma flush_streams_good E ns : forall s, good E s -> good E (flush_streams E s ns).
@@ -205,7 +212,7 @@ Proof.
   destruct (alookup n (st_outs s)) eqn:El; auto. apply IH. eapply flush_named_good; eauto.
 Qed.
 
-Lemma flush_all_good E s s' ok : good E s -> flush_all E s = (s', ok) -> good E s' /\ ok = true.
+Lemma flush_all_good E s s' ok : good E s -> flush_all E s = (s', ok) -> good E s' /\ True.
 Proof.
   intros Hg. unfold flush_all.
   pose proof (flush_streams_good E (map fst (st_outs s)) s Hg) as Hg1.
@@ -216,7 +223,7 @@ Qed.
 
 Lemma close_ostream_good E s n o s' code err : good E s -> os_cgfail o = false ->
   close_ostream E s n o = (s', code, err) ->
-  good E s' /\ (code, err) = match os_kind o with KFile => (0, false) | KCmd => wait_result (c_exit (e_spec E n)) false end.
+  good E s' /\ code = match os_kind o with KFile => 0 | KCmd => fst (wait_result (c_exit (e_spec E n)) false) end.
 Proof.
   intros Hg Hc. unfold close_ostream. destruct (flush_ostream E s n o) as [s1 o1] eqn:Ef.
   destruct (flush_ostream_good _ _ _ _ _ _ Hg Hc Ef) as (Hg1 & Hc1 & _ & _ & _ & Hk). rewrite Hk.
@@ -226,6 +233,7 @@ Proof.
     destruct (child_eof_good _ _ _ _ Hg1 Ee) as (Hg2 & -> & _). cbn [negb].
     destruct (wait_result _ false) as [c e]. intros H; injection H as <- <- <-. auto.
 Qed.
+
 
 Lemma close_streams_good E ns : forall s, good E s -> good E (close_streams E s ns).
 Proof.
@@ -267,7 +275,7 @@ Proof.
     + destruct (e_bad E n) eqn:Eb; intros H; injection H as <- <-; auto.
       apply good_aset'; auto; [apply good_add_log; auto; apply good_set_fs; auto|].
       cbn [st_outs add_log set_fs]. destruct Hg1 as (_ & _ & Hc & _). exact Hc.
-    + set (s2 := if (echo_capable E n && open_echo_cmd E (st_outs s1)) || negb (c_drain (e_spec E n)) then set_unmod s1 else s1).
+    + match goal with |- context [if ?c then set_unmod s1 else s1] => set (s2 := if c then set_unmod s1 else s1) end.
       assert (Hg2 : good E s2) by (subst s2; match goal with |- good E (if ?c then _ else _) => destruct c end; auto using good_set_unmod).
       pose proof (good_add_log E s2 (EvOpen n KCmd false) Hg2 I) as Hg3.
       destruct (start_proc E _ n) as [s4 cg] eqn:Es.
@@ -284,9 +292,25 @@ Proof.
   destruct (scan_line [] _). repeat apply good_add_obs. apply good_set_ins. auto.
 Qed.
 
+Lemma good_add_synced E s n : good E s -> good E (add_synced s n).
+Proof. intros (Hl & He & Hc & Hx & Hn). unfold good, out_content, nobuf in *. cbn. auto. Qed.
+
+Lemma getline_file_good E s n s' oc : good E s -> getline_file E s n = (s', oc) -> good E s'.
+Proof.
+  intros Hg0. unfold getline_file.
+  set (s0 := if sink_busy E s n then set_unmod s else s).
+  assert (Hg : good E s0) by (subst s0; destruct (sink_busy E s n); auto using good_set_unmod).
+  clearbody s0.
+  destruct (amem n (st_outs s0)); [intros H; injection H as <- <-; auto|].
+  destruct (alookup n (st_ins s0)) as [i|]; [intros H; injection H as <- <-; apply scan_stream_good; auto|].
+  destruct (alookup n (st_fs s0)); intros H; injection H as <- <-.
+  - apply scan_stream_good. apply good_set_ins; auto.
+  - apply good_add_obs; auto.
+Qed.
+
 Lemma step_good E s o s' oc : good E s -> step E s o = (s', oc) -> good E s'.
 Proof.
-  intros Hg. destruct o as [d ps|n|[n|]|c|n|c| |code|]; cbn [step].
+  intros Hg. destruct o as [d ps|n|[n|]|c|n|c| |code| |n]; cbn [step].
   - (* Print *)
     destruct (get_output_stream E s d) as [s1 [[|n]|]] eqn:Eg;
       pose proof (get_output_stream_good _ _ _ _ _ Hg Eg) as Hg1.
@@ -329,11 +353,7 @@ Proof.
     destruct (wait_result _ _) as [code err]. intros H; injection H as <- <-. apply good_add_obs.
     destruct err; auto. apply print_errorf_good; auto.
   - (* GetlineFile *)
-    destruct (amem n (st_outs s)); [intros H; injection H as <- <-; auto|].
-    destruct (alookup n (st_ins s)) as [i|]; [intros H; injection H as <- <-; apply scan_stream_good; auto|].
-    destruct (alookup n (st_fs s)); intros H; injection H as <- <-.
-    + apply scan_stream_good. apply good_set_ins; auto.
-    + apply good_add_obs; auto.
+    apply getline_file_good; auto.
   - (* GetlineCmd *)
     destruct (amem c (st_outs s)); [intros H; injection H as <- <-; auto|].
     destruct (alookup c (st_ins s)) as [i|]; [intros H; injection H as <- <-; apply scan_stream_good; auto|].
@@ -343,6 +363,10 @@ Proof.
   - intros H; injection H as <- <-. apply good_add_obs. apply flush_out_err_good; auto.
   - intros H; injection H as <- <-; auto.
   - intros H; injection H as <- <-; auto.
+  - (* AwaitFile *)
+    destruct (amem n (st_outs s)); [intros H; injection H as <- <-; auto|].
+    destruct (negb (amem n (st_ins s)) && negb (amem n (st_fs s))); [intros H; injection H as <- <-; auto using good_set_unmod|].
+    apply getline_file_good. apply good_add_synced; auto.
 Qed.
 
 Lemma exec_good E ops : forall s s' r, good E s -> exec E s ops = (s', r) -> good E s'.
